@@ -19,6 +19,23 @@ from .tens import Tens, ShapeError, Unsupported, as_tens
 from . import tens as T
 
 
+# statement coverage of the interpreted repository code (tools/coverage.py; VF_COVERAGE=<file> appends to it)
+COVER = set() if os.environ.get("VF_COVERAGE") else None
+
+
+def _dump_cover():
+    if COVER:
+        with open(os.environ["VF_COVERAGE"], "a", encoding="utf-8") as f:
+            for fn, ln in sorted(COVER, key=lambda t: (str(t[0]), t[1])):
+                f.write(f"{fn}:{ln}\n")
+
+
+if COVER is not None:
+    import atexit
+
+    atexit.register(_dump_cover)
+
+
 class AnalysisError(Exception):
     def __init__(self, msg, node=None, file=None):
         self.msg = msg
@@ -676,6 +693,8 @@ class Interp:
             self.exec_stmt(st, env)
 
     def exec_stmt(self, st, env):
+        if COVER is not None:
+            COVER.add((self.cur_file(), st.lineno))
         m = getattr(self, "s_" + type(st).__name__, None)
         if m is None:
             raise self.err(f"unsupported statement {type(st).__name__}", st)
